@@ -297,28 +297,50 @@ impl Pattern {
      * Implement csh-style alternate matches.  Pattern::new() has already
      * verified that the pattern is valid and the braces are correctly balanced.
      *
-     * The algorithm starts at the right-most opening brace and iteratively works
-     * backwards, expanding each alternate match and recursively calling Pattern
-     * to verify that there is a match.
+     * The algorithm is the same as pkg_install's alternate_match(): expand the
+     * first (left-most) group, whose closing brace and separating commas are
+     * those at its own nesting depth, and recursively call Pattern on each
+     * result to expand any nested or following groups and perform the match.
      */
     fn alternate_match(pattern: &str, pkg: &str) -> bool {
-        for (i, _) in
-            pattern.match_indices('{').collect::<Vec<_>>().iter().rev()
-        {
-            let (first, rest) = pattern.split_at(*i);
-            /* This shouldn't fail as new() already verified, but... */
-            let Some(n) = rest.find('}') else {
-                return false;
-            };
-            let (matches, last) = rest.split_at(n + 1);
-            let matches = &matches[1..matches.len() - 1];
+        /* This shouldn't fail as new() already verified, but... */
+        let Some(start) = pattern.find('{') else {
+            return false;
+        };
+        let (first, rest) = pattern.split_at(start);
 
-            for m in matches.split(',') {
-                let fmt = format!("{}{}{}", first, m, last);
-                if let Ok(pat) = Pattern::new(&fmt) {
-                    if pat.matches(pkg) {
-                        return true;
+        let mut depth = 0;
+        let mut alt = 1;
+        let mut alts = vec![];
+        let mut end = None;
+        for (i, ch) in rest.char_indices() {
+            match ch {
+                '{' => depth += 1,
+                '}' => {
+                    depth -= 1;
+                    if depth == 0 {
+                        alts.push(&rest[alt..i]);
+                        end = Some(i);
+                        break;
                     }
+                }
+                ',' if depth == 1 => {
+                    alts.push(&rest[alt..i]);
+                    alt = i + 1;
+                }
+                _ => {}
+            }
+        }
+        let Some(end) = end else {
+            return false;
+        };
+        let last = &rest[end + 1..];
+
+        for m in alts {
+            let fmt = format!("{}{}{}", first, m, last);
+            if let Ok(pat) = Pattern::new(&fmt) {
+                if pat.matches(pkg) {
+                    return true;
                 }
             }
         }
